@@ -27,6 +27,64 @@ type stubEntry struct {
 	cacheControl string        // "" = no Cache-Control header at all
 	delay        time.Duration // artificial latency, so that loads of one URL overlap
 	fetches      int64         // atomic
+
+	// versioned origin: the body carries the number of the fetch that produced it; every failEvery-th
+	// fetch (k % failEvery == 1) answers 503.  served is the origin's own log.
+	versioned bool
+	failEvery int64
+	mu        sync.Mutex
+	served    []servedRec
+}
+
+type servedRec struct {
+	k          int64
+	start, end int64 // nanoseconds since processStart
+	status     int
+}
+
+var processStart = time.Now()
+
+func sinceStart() int64 { return int64(time.Since(processStart)) }
+
+const verPrefix = "https://example.org/c20/ver#"
+
+func versionedBody(k int64) []byte {
+	return []byte(fmt.Sprintf(`{"@context":{"ver":"%s%d"}}`, verPrefix, k))
+}
+
+// docVersion extracts the version from a document served by a versioned origin (0 if none).
+func docVersion(d *ld.RemoteDocument) int64 {
+	if d == nil {
+		return 0
+	}
+	m, _ := d.Document.(map[string]any)
+	c, _ := m["@context"].(map[string]any)
+	v, _ := c["ver"].(string)
+	if !strings.HasPrefix(v, verPrefix) {
+		return 0
+	}
+	var k int64
+	fmt.Sscanf(v[len(verPrefix):], "%d", &k)
+	return k
+}
+
+// versionedURLs: origins whose content changes with every fetch.
+var versionedURLs = []struct {
+	url, cc   string
+	failEvery int64
+}{
+	{"https://origin.example.org/c20/versioned-max-age-0.jsonld", "max-age=0", 0},
+	{"https://origin.example.org/c20/versioned-cacheable.jsonld", "max-age=3600", 0}, // expires through the TTL knob only
+	{"https://origin.example.org/c20/versioned-flaky.jsonld", "max-age=0", 4},        // 503, 200, 200, 200, 503, ...
+}
+
+func isVersionedURL(u string) bool {
+	for _, v := range versionedURLs {
+		if v.url == u {
+			return true
+		}
+	}
+	return false
 }
 
 // stubTransport serves the ctxload context bytes for known URLs and 404 for
@@ -144,6 +202,10 @@ func newStub(raw *ctxload.Loader) (*stubTransport, error) {
 		s.known[su.url] = &stubEntry{body: raw.Raw(knownURLs[i%len(knownURLs)]), cacheControl: su.cc,
 			delay: time.Duration(6+3*i) * time.Millisecond}
 	}
+	for i, v := range versionedURLs {
+		s.known[v.url] = &stubEntry{cacheControl: v.cc, delay: time.Duration(6+2*i) * time.Millisecond,
+			versioned: true, failEvery: v.failEvery}
+	}
 	s.known[ctxload.URLKYCv101].delay = 8 * time.Millisecond         // no-store
 	s.known[ctxload.URLDeliveryAddress].delay = 5 * time.Millisecond // max-age=0
 	return s, nil
@@ -164,9 +226,31 @@ func (s *stubTransport) RoundTrip(req *http.Request) (*http.Response, error) {
 			ContentLength: int64(len(body)), Request: req,
 		}, nil
 	}
-	atomic.AddInt64(&e.fetches, 1)
+	k := atomic.AddInt64(&e.fetches, 1)
+	start := sinceStart()
 	if e.delay > 0 {
 		time.Sleep(e.delay)
+	}
+	body := e.body
+	if e.versioned {
+		status := http.StatusOK
+		if e.failEvery > 0 && k%e.failEvery == 1 {
+			status = http.StatusServiceUnavailable
+		}
+		body = versionedBody(k)
+		e.mu.Lock()
+		e.served = append(e.served, servedRec{k: k, start: start, end: sinceStart(), status: status})
+		e.mu.Unlock()
+		if status != http.StatusOK {
+			msg := []byte("temporarily unavailable")
+			return &http.Response{
+				Status: "503 Service Unavailable", StatusCode: status,
+				Proto: "HTTP/1.1", ProtoMajor: 1, ProtoMinor: 1,
+				Header:        http.Header{"Content-Type": []string{"text/plain"}},
+				Body:          io.NopCloser(bytes.NewReader(msg)),
+				ContentLength: int64(len(msg)), Request: req,
+			}, nil
+		}
 	}
 	h := http.Header{}
 	h.Set("Content-Type", "application/ld+json")
@@ -177,8 +261,8 @@ func (s *stubTransport) RoundTrip(req *http.Request) (*http.Response, error) {
 		Status: "200 OK", StatusCode: http.StatusOK,
 		Proto: "HTTP/1.1", ProtoMajor: 1, ProtoMinor: 1,
 		Header:        h,
-		Body:          io.NopCloser(bytes.NewReader(e.body)),
-		ContentLength: int64(len(e.body)), Request: req,
+		Body:          io.NopCloser(bytes.NewReader(body)),
+		ContentLength: int64(len(body)), Request: req,
 	}, nil
 }
 
@@ -217,6 +301,7 @@ type docSnap struct {
 	key    string
 	doc    *ld.RemoteDocument
 	digest string
+	exp    int64 // expiry handed to the engine, nanoseconds since processStart
 }
 
 func docDigest(d *ld.RemoteDocument) string {
@@ -270,9 +355,6 @@ func (t *ttlEngine) Set(key string, doc *ld.RemoteDocument, exp time.Time) error
 		atomic.AddInt64(&t.sets, 1)
 	}
 	dg := docDigest(doc)
-	t.snapMu.Lock()
-	t.snaps = append(t.snaps, docSnap{key: key, doc: doc, digest: dg})
-	t.snapMu.Unlock()
 	if t.ttl > 0 {
 		if lim := time.Now().Add(t.ttl); exp.After(lim) {
 			exp = lim
@@ -281,7 +363,85 @@ func (t *ttlEngine) Set(key string, doc *ld.RemoteDocument, exp time.Time) error
 			}
 		}
 	}
+	t.snapMu.Lock()
+	t.snaps = append(t.snaps, docSnap{key: key, doc: doc, digest: dg, exp: int64(exp.Sub(processStart))})
+	t.snapMu.Unlock()
 	return t.inner.Set(key, doc, exp)
+}
+
+// firstExpiry: for every version of a versioned URL, the expiry given when it was FIRST stored.
+func (t *ttlEngine) firstExpiry(u string) map[int64]int64 {
+	t.snapMu.Lock()
+	defer t.snapMu.Unlock()
+	m := map[int64]int64{}
+	for _, s := range t.snaps {
+		if s.key != u {
+			continue
+		}
+		v := docVersion(s.doc)
+		if _, seen := m[v]; !seen {
+			m[v] = s.exp
+		}
+	}
+	return m
+}
+
+// versionedRec is one load of a versioned URL: when it started and ended and what it returned.
+type versionedRec struct {
+	url     string
+	ts, te  int64
+	version int64  // 0 = the load failed
+	detail  string // error class for failures
+	who     string
+}
+
+// checkVersioned: every result must be explainable.  A version returned is either the one this
+// very load fetched (the origin served it inside the load's interval) or a cached one, and a
+// cached one can only be handed out if the load started before the expiry under which that
+// version was stored.  A failed load needs an origin failure inside its interval.
+func (env *loaderEnv) checkVersioned(recs []versionedRec) []mismatch {
+	var bad []mismatch
+	exp := map[string]map[int64]int64{}
+	for _, r := range recs {
+		e := env.stub.known[r.url]
+		if e == nil {
+			continue
+		}
+		if exp[r.url] == nil {
+			exp[r.url] = env.engine.firstExpiry(r.url)
+		}
+		e.mu.Lock()
+		served := append([]servedRec(nil), e.served...)
+		e.mu.Unlock()
+		own := func(status int, k int64) bool {
+			for _, s := range served {
+				if s.start >= r.ts && s.end <= r.te && s.status == status && (k == 0 || s.k == k) {
+					return true
+				}
+			}
+			return false
+		}
+		if r.version == 0 {
+			if !own(http.StatusServiceUnavailable, 0) {
+				bad = append(bad, mismatch{Goroutine: -1, Op: -1, Kind: "load-failed-on-healthy-origin",
+					What: r.who + " load(" + r.url + ") failed (" + r.detail + ") although the origin answered no request of this load with an error",
+					Want: "a document", Got: r.detail})
+			}
+			continue
+		}
+		if own(http.StatusOK, r.version) {
+			continue
+		}
+		if x, ok := exp[r.url][r.version]; ok && r.ts < x {
+			continue
+		}
+		x, stored := exp[r.url][r.version]
+		bad = append(bad, mismatch{Goroutine: -1, Op: -1, Kind: "stale-version",
+			What: fmt.Sprintf("%s load(%s) started at %dus and returned version %d, which this load did not fetch and which had expired (stored=%v, expiry %dus)",
+				r.who, r.url, r.ts/1000, r.version, stored, x/1000),
+			Want: "a version fetched by this load, or a cached version that had not expired when the load started", Got: fmt.Sprintf("version %d", r.version)})
+	}
+	return bad
 }
 
 // ---- loader construction ------------------------------------------------------
